@@ -226,6 +226,15 @@ Definition rfind_chr (c : N) (s : str) : option nat :=
   | None => None
   end.
 
+(* value[:end] where end = len(value), minus 6 when the value contains ":" (a timezone offset);
+   a negative end index (len < 6) counts from the end *)
+Definition ym_head (value : str) : str :=
+  let n := length value in
+  match find_chr 58 value with
+  | Some _ => if (n <? 6)%nat then firstn (n - (6 - n)) value else firstn (n - 6) value
+  | None => value
+  end.
+
 Definition oz (o : option Z) (d : Z) : Z := match o with Some z => if z =? 0 then d else z | None => d end.
 
 Definition period_parse (value0 : str) : option xperiod :=
@@ -250,17 +259,7 @@ Definition period_parse (value0 : str) : option xperiod :=
         | _ => None
         end
     else
-      let n := length value in
-      let e := match find_chr 58 value with Some _ => (n - 6)%nat | None => n end in
-      (* Python: value[:end] with end possibly negative when n < 6 *)
-      let head :=
-        match find_chr 58 value with
-        | Some _ => if (n <? 6)%nat then
-                      (* negative end index: value[:n-6] == value[: max(0, n + (n-6))] -> empty for n<6 *)
-                      firstn (n - (6 - n)) value
-                    else firstn e value
-        | None => value
-        end in
+      let head := ym_head value in
       let ym := match rfind_chr 45 head with Some i => (3 <? i)%nat | None => false end in
       if ym then
         match parse_date_args value fmt_G_YEAR_MONTH with
